@@ -247,6 +247,52 @@ def run_bounds(run, cfg, G):
                        "non-trivial = delivered / overflow / refused observed; distinct = distinct case lines")
 
 
+# ------------------------------------------------------------------------------------ ser (C03)
+
+def ser_nontrivial(inp, impl):
+    ks = []
+    toks = impl.split()
+    if toks and toks[0].startswith("ok:"):
+        ks.append("encoded")
+    if toks and toks[0] == "keyerr":
+        ks.append("key-refused")
+    if len(toks) > 1 and "s" in toks[1] and ("O" in toks[1] or "k" in toks[1]):
+        ks.append("capacity-boundary-crossed")
+    v = inp.split(" J ")[0]
+    if "m" in v and "(" in v:
+        ks.append("map-or-struct")
+    if "q" in v and "(" in v:
+        ks.append("seq-or-tuple")
+    if " Vv" in v or ":v" in v or ",v" in v or "(v" in v:
+        ks.append("enum-variant")
+    return ks
+
+
+def run_ser(run, cfg, G):
+    diff_run(run, G, ["ser"], "ser", ser_nontrivial, "ser")
+    # exhaustive/strided f32 sweep: implementation vs serde_json only
+    lines = G["run_scenario"](run, ["ser-f32"]) or []
+    for l in lines:
+        if l.startswith("f32-sweep"):
+            run.cov["f32_sweep"] = l
+        if l.startswith("oracle-mismatch"):
+            path = run.replay_path("ser-f32")
+            json.dump({"property": run.pid, "kind": "zlink and serde_json disagree on this f32", "case_line": l}, open(path, "w"), indent=1)
+            run.violations.append(("impl", path, ""))
+            break
+    def search():
+        diff_run(run, G, ["ser"], "ser", ser_nontrivial, "ser-search", tier="thorough", seed_offset=1, record=False)
+    finish_corr(run, G, [search])
+    run.cov["rule"] = ("three-way per value: zlink to_slice (cfg hook) at ample capacity and at every (small values) or sampled buffer length 0..len+1, serde_json::to_vec, and the Lean model fed with the "
+                       "data-model events captured by a recording serde::Serializer; values: every Unicode scalar < 0x3000 plus 4096 sampled (thorough: all 1 112 064) as string / char / map key, all pairs of 40 "
+                       "escape-relevant bytes, all i8/u8, strided (thorough: all) i16/u16, sampled f32/f64 bit patterns, random nested trees of depth <= 5 over every serde shape incl. refused key kinds; "
+                       "also the public path send_reply(&Reply<T>); non-trivial = encoded / key refused / capacity boundary crossed; distinct = distinct case lines")
+
+
+def search_ser(run, cfg, G):
+    diff_run(run, G, ["ser"], "ser", ser_nontrivial, "ser-search", tier="thorough", seed_offset=0, record=False)
+
+
 RX_ASSUME = [
     "which bytes are a JSON document of the requested shape is serde_json/serde's business: the model takes `decode this frame` as an opaque per-frame function (theorems hold for every such function); the harness instantiates it with the verdict of a fresh connection receiving that frame alone and cross-checks call receivers against serde_json::from_slice",
     "the ReadHalf contract: a read future that is dropped while pending has consumed nothing",
@@ -265,6 +311,19 @@ PROPS = {
         "theorems": ["C02.C02_history", "C02.C02_stream", "C02.C02_free_space_irrelevant", "C02.C02_refused_no_effect",
                      "C02.C02_empty_flush", "C02.C02_oracle", "C02.consts_ok"],
         "run": run_tx, "trusted_base": TB_COMMON, "assumptions": TX_ASSUME,
+    },
+    "C03": {
+        "property_modules": ["Zlink.Properties.C03"],
+        "lean_modules": ["Zlink.Properties.C03"],
+        "theorems": ["C03.C03_cap_independent", "C03.C03_model_eq_reference", "C03.C03_escape_table", "C03.C03_no_raw_control",
+                     "C03.C03_no_nul", "C03.C03_keys"],
+        "run": run_ser, "search": search_ser, "trusted_base": TB_COMMON,
+        "assumptions": [
+            "serde_json::to_vec is the reference for `compact JSON`; the Lean reference printer `Ser.render` is validated against it on every explored value (three-way comparison), not proved equal to it",
+            "digit strings of itoa (integers) and ryu (floats) are carried as opaque texts (recorded from Rust's own Display for integers, from serde_json for floats) and assumed printable",
+            "Serialize implementations announce honest length hints (a sequence that announces Some(0) and then emits elements is malformed in serde_json and zlink alike); WF is an explicit decidable predicate",
+            "valid UTF-8 of the output is checked on every explored value by the oracle (Utf8.valid), not yet proved as a theorem (C03_valid_utf8 is the stated gap)",
+        ],
     },
     "C17": {
         "property_modules": ["Zlink.Properties.C17"],
